@@ -39,11 +39,12 @@ RULE = ('Hypothesis-generated cases on an in-memory asyncssh client/server '
         'un-chunked stream; (process) server scripts that write beyond the '
         'window and exit at a generated point versus run/wait/communicate '
         'results; (redirect) redirection sources/targets of every kind; '
-        '(drain) write-buffer limits versus a non-reading peer. Non-trivial '
+        '(drain) write-buffer limits versus a non-reading peer; (writers) 2-3 '
+        'tasks writing and draining on one channel. Non-trivial '
         '= a separator spanning a packet boundary, a read larger than the '
         'window, an exception between data, exit status arriving before the '
         'last data is read, a redirect carrying more than one window of '
-        'data, or a drain that has to block; distinct = canonical JSON of '
+        'data, or a drain that has to block (twice for writers); distinct = canonical JSON of '
         'the case.')
 ASSUMPTIONS = ['asyncio FIFO callback order and fair asyncio.Lock',
                'both endpoints are asyncssh (raw channel delivery is C07)',
